@@ -56,7 +56,7 @@ def plan(tier):
     n = 2000 if tier == "quick" else 80000
     return [(c, n) for c in par.FAULT_CLASSES] + \
         [("dense", 4 * n), ("fanout", n), ("skinny", 2 * n),
-         ("long", n // 25)]
+         ("long", n // 25), ("bigtree", n // 4)]
 
 
 def gen_long(rng):
@@ -126,10 +126,23 @@ def gen(cls, idx, rng, tier):
         m = gen_skinny(rng, side)
     elif cls == "long":
         m = gen_long(rng)
+    elif cls == "bigtree":
+        # trees of hundreds of nodes grown with a small search radius: the
+        # router changes its neighbour-search strategy on the way, and late
+        # sinks lie far from everything connected so far
+        if rng.random() < .5:
+            w, h = rng.choice([(rng.randint(60, 130), rng.randint(3, 6)),
+                               (rng.randint(3, 6), rng.randint(60, 130))])
+        else:
+            w, h = rng.randint(16, 28), rng.randint(16, 28)
+        dead = set(par.wrap_links(w, h)) if rng.random() < .6 else set()
+        for _ in range(rng.randint(0, 6)):
+            dead.add((rng.randrange(w), rng.randrange(h), rng.randrange(6)))
+        m = dict(w=w, h=h, dead_chips=[], dead_links=sorted(dead))
     else:
         m = par.gen_faults(rng, cls, side)
     chips = par.live_chips(m)
-    nv = rng.randint(1, 30)
+    nv = rng.randint(1, 30) if cls != "bigtree" else rng.randint(30, 70)
     place = [(("v%d" % i) if (i + nv) % 5 else ("pop", i), rng.choice(chips))
              for i in range(nv)]
     allocs, endpoints = {}, []
@@ -150,6 +163,8 @@ def gen(cls, idx, rng, tier):
         fan = rng.randint(1, 8) if cls != "fanout" else rng.randint(10, 60)
         if cls == "skinny":
             fan = rng.randint(4, 20)
+        if cls == "bigtree":
+            fan = rng.randint(25, 60)
         sinks = [rng.choice(place)[0] for _ in range(fan)]
         if rng.random() < .3:
             sinks.append(sinks[0])          # duplicated sink
@@ -158,7 +173,9 @@ def gen(cls, idx, rng, tier):
             sinks.append(src)               # self loop / sink on source chip
         nets.append((src, sinks, rng.choice([1.0, 0, 2])))
     return dict(machine=m, place=place, allocs=allocs, endpoints=endpoints,
-                nets=nets, radius=rng.choice([0, 1, 2, 20, 20]),
+                nets=nets, radius=rng.choice([0, 1, 2, 20, 20, 3, 5]
+                                             if cls != "bigtree" else
+                                             [3, 3, 4, 5]),
                 tie=rng.randrange(1 << 30))
 
 
